@@ -23,6 +23,28 @@ Cfg_wm == { Cfg(1, 0, << <<Dflt("pun", 1)>>, <<Dflt(c, 1)>> >>) : c \in {"po", "
        \cup { Cfg(1, 0, << <<Dflt("pu", 1)>>, <<Dflt(c, 1)>> >>) : c \in {"po", "pon", "tpo"} }
        \cup { Cfg(2, 0, << <<Dflt("pun", 2)>>, <<Dflt("pon", 2)>> >>) }
        \cup { Cfg(1, 0, << <<Dflt("tpun", 1), Dflt("tpu", 1)>>, <<Dflt("po", 1)>> >>) }
+\* batch / try / compensating operations, two threads
+Cfg_batch ==
+     { Cfg(2, 0, << <<Dflt(p, 2), Dflt(p, 1)>>, <<Dflt(c, 1), Dflt(c, 2)>> >>) : p \in {"pun"}, c \in {"pon"} }
+  \cup { Cfg(2, 0, << <<Dflt("tpun", 2), Dflt("tpu", 1)>>, <<Dflt("tpon", 2), Dflt("tpo", 1)>> >>) }
+  \cup { Cfg(2, 0, << <<Dflt("cpun", 2), Dflt("cpun", 1)>>, <<Dflt("cpon", 1), Dflt("cpon", 2)>> >>) }
+  \cup { Cfg(2, 0, << <<Dflt("cpun", 2), Dflt("cpun", 2)>>, <<Dflt("tpo", 1)>> >>) }
+  \cup { Cfg(2, 0, << <<Dflt("pun", 2), Dflt("pu", 1)>>, <<O("xpon", 2, FALSE, TRUE, TRUE), O("xpon", 1, FALSE, TRUE, TRUE)>> >>) }
+  \cup { Cfg(2, 65534, << <<Dflt("pu", 1), Dflt("pun", 2)>>, <<Dflt("po", 1), Dflt("pon", 2)>> >>) }
+\* three threads, default flags
+Cfg_3thr ==
+     { Cfg(cap, 0, << <<Dflt("pu", 1)>>, <<Dflt("pu", 1)>>, <<Dflt("po", 1), Dflt("po", 1)>> >>) : cap \in {1, 2} }
+  \cup { Cfg(cap, 0, << <<Dflt("pu", 1), Dflt("pu", 1)>>, <<Dflt("po", 1)>>, <<Dflt("po", 1)>> >>) : cap \in {1, 2} }
+  \cup { Cfg(1, 0, << <<Dflt("tpu", 1)>>, <<Dflt("tpu", 1)>>, <<Dflt("tpo", 1)>> >>) }
+  \cup { Cfg(2, 0, << <<Dflt("pun", 2)>>, <<Dflt("po", 1)>>, <<Dflt("po", 1)>> >>) }
+\* weak memory, three threads (tiny)
+Cfg_wm2 ==
+     { Cfg(1, 0, << <<Dflt("pun", 1)>>, <<Dflt("pon", 1)>>, <<Dflt("tpo", 1)>> >>) }
+  \cup { Cfg(2, 0, << <<Dflt("pun", 2)>>, <<Dflt("po", 1)>>, <<Dflt("po", 1)>> >>) }
+  \cup { Cfg(1, 0, << <<Dflt("cpun", 1)>>, <<Dflt("cpon", 1)>> >>) }
+  \cup { Cfg(1, 0, << <<O("pu", 1, TRUE, FALSE, TRUE)>>, <<O("po", 1, TRUE, TRUE, FALSE)>> >>) }
+\* liveness (termination of balanced programs under weak fairness), every flag pairing
+Cfg_live == PC1(1, 1) \cup { Cfg(1, 0, << <<Dflt("pun", 1)>>, <<Dflt("pon", 1)>> >>) }
 Cfg_small == PC1(1, 2) \cup PC1(2, 2)
 
 Next == \/ \E t \in Thr : Step(t, MOf)
